@@ -27,6 +27,9 @@ def signatures(repo):
 TEXTUAL = ('haystack_value_to_zinc_string', 'haystack_value_to_json_string')
 
 
+DEEP = [False]       # thorough tier: larger containers and strings (set per template in the worker)
+
+
 def make_value(ex, h, l, kind, fn=''):
     """a value of the given kind; payloads symbolic, container shapes chosen by forks.  For the two encoder entry points
     floats are short decimals (the float -> text model needs decimal provenance); elsewhere any f64"""
@@ -41,7 +44,9 @@ def make_value(ex, h, l, kind, fn=''):
     if kind == 'num':
         x = fl()
         return h.num(x, 'meter' if ex.pick(2) else None)
-    if kind == 'str': return h.str_([l.byte([(0, 0x7f)])] if ex.pick(2) else [])
+    if kind == 'str':
+        n = ex.pick(3 if DEEP[0] else 2)
+        return h.str_([l.byte([(0, 0x7f)]) for _ in range(n)])
     if kind == 'ref': return h.ref([l.byte([(0, 0x7f)])], [l.byte([(0, 0x7f)])] if ex.pick(2) else None)
     if kind == 'sym': return h.sym([l.byte([(0, 0x7f)])])
     if kind == 'uri': return h.uri([l.byte([(0, 0x7f)])])
@@ -57,16 +62,17 @@ def make_value(ex, h, l, kind, fn=''):
         if k == 1: return h.dt(2021, 1, 15, 23, 59, 59, 0, -18000, 'America/New_York')      # local date != UTC date
         return h.dt(2021, 6, 15, 1, 30, 0, 0, 19800, 'Asia/Kolkata')                          # local date != UTC date, fractional offset
     if kind == 'list':
-        n = ex.pick(4)
-        return h.list_([h.marker(), h.str_([l.byte([(0x61, 0x7a)])]), h.num(3.0)][:n])
+        n = ex.pick(5 if DEEP[0] else 4)
+        return h.list_([h.marker(), h.str_([l.byte([(0x61, 0x7a)])]), h.num(3.0), h.list_([h.na()])][:n])
     if kind == 'dict':
         pairs = []
         if ex.pick(2): pairs.append((b'a', h.num(1.0)))
         if ex.pick(2): pairs.append((b'b', h.str_([l.byte([(0x61, 0x7a)])])))
+        if DEEP[0] and ex.pick(2): pairs.append((b'c', h.dict_([(b'a', h.marker())])))
         return h.dict_(pairs)
     if kind == 'grid':
-        n = ex.pick(3)
-        rows = [[(b'a', h.num(1.0))], [(b'a', h.num(2.0)), (b'b', h.marker())]][:n]
+        n = ex.pick(4 if DEEP[0] else 3)
+        rows = [[(b'a', h.num(1.0))], [(b'a', h.num(2.0)), (b'b', h.marker())], [(b'b', h.str_([l.byte([(0x61, 0x7a)])]))]][:n]
         meta = [(b'm', h.marker())] if ex.pick(2) else None
         return h.grid(meta, [(b'a', None), (b'b', None)], rows)
     raise ValueError(kind)
@@ -286,6 +292,7 @@ def run_one(ex, fn, sig, plan=None):
     """build the arguments, run the extern fn body, return the state needed by post()"""
     mod, name, params, rt = sig
     heap = Heap(ex); ex.side['heap'] = heap
+    DEEP[0] = bool(plan and plan.get('deep'))
     st = {'fn': name, 'stage': 'build'}; ex.side['st'] = st
     argv, desc, pool = build_call(ex, name, params, plan)
     st.update(argv=argv, desc=desc, pool=pool, orig=[c.v for c in pool], rt=rt, params=params)
